@@ -6,6 +6,17 @@ VERIF = Path(__file__).resolve().parent.parent
 ALL = [f"C{i:02d}" for i in range(1, 20)]
 
 CLAIMED = {
+    "C12": dict(
+        text="sched/Repro.tla models the mechanism - passes visit hash-ordered back-reference sets in an order the environment chooses - and TLC "
+             "shows the re-connection step is confluent iff the visits are ordered (the unordered configuration yields TLC's counterexample, "
+             "which the check expects). The code is then sampled: design programs (one bundle feeding several ports of one and of several "
+             "instances, implicit signals, generator-made modules, arrays, pairs, hierarchies) run in N fresh interpreters, each with its own "
+             "PYTHONHASHSEED, program order and amount of unrelated allocation / elaboration; every serialized package and spice / spectre / "
+             "verilog netlist is a single-assignment register across all interpreters, decided by TLC (Trace_Register).",
+        note="Exploration of configurations: hash seeds and allocation histories are sampled (8 interpreters quick, 32 thorough), not exhausted; "
+             "the model explains where order dependence can enter, only the sampled runs show whether the code has it. Trusted: worker, digests, TLC.",
+        ref="6 C12", technique="TLA+ confluence model (Repro) + TLC single-assignment validation of outputs from sampled process configurations",
+        category="exploration"),
     "C17": dict(
         text="api/SimExport.tla states what exporting a Sim must yield: top = the testbench, present exactly once in the package; analyses, controls "
              "and options complete and in their original order; names, expressions, paths, sweep kinds, nested analyses kept; every number the "
